@@ -343,5 +343,15 @@ def shard(ctx):
 
 
 def post(rep, tier, seed):
-    return {"html_depth_note": "HTML nesting is exercised up to the stated bound of 1,024 levels; see DESIGN.md for the "
-                               "informational depth sweep"}
+    out = {"html_depth_note": "HTML nesting is exercised up to the stated bound of 1,024 levels; see DESIGN.md for the "
+                              "informational depth sweep"}
+    if tier == "thorough":
+        import random
+        from .. import miri
+        from ..runner import Ctx
+        ctx = Ctx(PROPERTY, tier, seed, 0, 1)
+        ctx.rng = random.Random(seed ^ 0x5eed)
+        cmds = [c for c, fam in core_commands(ctx, 1400) if fam != "html" and len(json.dumps(c)) < 6000
+                and c.get("op") not in ("keypair", "hash_and_sign_event", "verify_event", "verify_json")][:900]
+        out["miri"] = miri.layer(rep, cmds, seed=seed, compare_native=False)
+    return out
